@@ -172,6 +172,8 @@ theorem setRunIdSys_no_rename (r : Root) (cur new : String) (hex : r.has new = t
     ∀ s ∈ setRunIdSys r cur new, ∀ a b, s ≠ .renameDir a b := by
   unfold setRunIdSys
   split
+  · intro s hs; cases hs
+  split
   · exact newRunIdSys_no_rename r cur new
   · split
     · exact newRunIdSys_no_rename r cur new
@@ -191,6 +193,8 @@ theorem setRunIdSys_no_rename' (r : Root) (cur new : String) (h : setRunIdRename
     ∀ s ∈ setRunIdSys r cur new, ∀ a b, s ≠ .renameDir a b := by
   unfold setRunIdSys
   split
+  · intro s hs; cases hs
+  split
   · exact newRunIdSys_no_rename r cur new
   · split
     · exact newRunIdSys_no_rename r cur new
@@ -204,6 +208,8 @@ theorem setRunId_crash_ok {srcOf : String → Nat → UInt8} (r : Root) (h : Roo
     RootOk srcOf (r.applyAllSys ((setRunIdSys r cur new).take n)) := by
   apply sys_crash_ok r h
   unfold setRunIdSys
+  split
+  · exact renOk_of_no_rename _ _ (by intro s hs; cases hs)
   split
   · exact renOk_of_no_rename _ _ (newRunIdSys_no_rename r cur new)
   · split
